@@ -13,6 +13,7 @@ package fetcher
 import (
 	"context"
 	"slices"
+	"time"
 
 	"github.com/sourcenetwork/corekv"
 
@@ -458,7 +459,15 @@ func (f *indexFetcher) newInIndexIterator(
 	// a value listed twice must not yield its documents twice
 	uniqueInValues := make([]client.NormalValue, 0, len(inValues))
 	for _, inValue := range inValues {
-		if !slices.ContainsFunc(uniqueInValues, inValue.Equal) {
+		isSame := inValue.Equal
+		if inTime, ok := inValue.Unwrap().(time.Time); ok {
+			// the same instant written with two different offsets is one value (one index key)
+			isSame = func(other client.NormalValue) bool {
+				otherTime, ok := other.Unwrap().(time.Time)
+				return ok && inTime.Equal(otherTime)
+			}
+		}
+		if !slices.ContainsFunc(uniqueInValues, isSame) {
 			uniqueInValues = append(uniqueInValues, inValue)
 		}
 	}
